@@ -184,6 +184,44 @@ NEEDS = {
              'history: start, E(), start with another occupation, E() before any update'),
     'C34c': ('jumpnetworkevaluator_vacancy reads the spectator environment of TS clusters around cell 0 instead of around the vacancy',
              'vacancy in a cell with R != 0, non-uniform spectators, TS clusters containing spectator sites'),
+    'C01c': ('vacancyThermoKinetics.__eq__/__hash__ reduce site and transition arrays separately (common rate factor lost)',
+             'history: one calculator, two inputs whose vacancy data differ by a uniform shift of all omega0 barriers (any temperature sweep on a one-class network)'),
+    'C02c': ('Interstitial.siteprob vectorised with np.repeat in site-list order (same slip as C09b, found independently)',
+             'Wyckoff sets interleaved in the site index or a user-ordered site list, with different probabilities'),
+    'C03c': ('Lij step 6c: origin-state correction of L1vv written without the final symmetrisation',
+             'origin states with a >= 2-D site vector basis, point group without mirrors, >= 2 Wyckoff orbits with different solute site energies'),
+    'C04c': ('preene2betafree: solute reference read again after it was subtracted (bFT1/bFT2 keep the solute reference)',
+             'solute reference free energy different from zero (eneS.min() != 0 or preS != 1)'),
+    'C06c': ('vacancyThermoKinetics key reduced per array (same slip as C01c, found independently)',
+             'as C01c'),
+    'C10c': ('GFCrystalcalc.__call__ memoises values; cache dropped only when the symmetrised rates change',
+             'history: SetRates twice on one object with site energies of two Wyckoff sets moved oppositely, same separation evaluated again'),
+    'C15c': ('generatetags takes the solute-vacancy tag classes as a contiguous slice of the kinetic stars',
+             'network where a state outside the thermodynamic range is closer than one inside (tetragonal c/a > sqrt 2, sc with <100>+<111> jumps)'),
+    'C16c': ('Taylor __getitem__: key prefixed with Ellipsis instead of a full slice',
+             'matrix-valued expansion indexed with fewer indices than the value has axes'),
+    'C17c': ('Taylor rotatecoeff (not in place): per-order block chosen by l instead of n for reduced entries',
+             'rotate() of a reduced expansion (entries with l < n) by a non-orthogonal matrix'),
+    'C18c': ('maptranslation compares separately wrapped separations without re-wrapping the difference',
+             'operations with translation component exactly 1/2 and inexact atomic coordinates (screw axes, glides: Pnma general positions)'),
+    'C19c': ('minlattice applies the sort / handedness matrix only when the order changes',
+             'left-handed cell description whose vectors are already sorted by length'),
+    'C21c': ('jumpnetwork2lattice takes site positions from all species stacked',
+             'jumping species not first in the crystal, >= 2 sites'),
+    'C23c': ('g_vect takes the lattice part from a plain floor while the in-cell part keeps the 1e-8 tolerance',
+             'image coordinate that is an integer up to roundoff (n - 1e-16)'),
+    'C25c': ('rate/bias expansions (omega2): origin-state vector stars looked up through a table that skips sites whose vector basis is the whole space',
+             'origin states, omega2, site with trivial site group'),
+    'C26c': ('symmequivjumplist adds the reverse of an image jump only when the end points lie in different stars',
+             'omega1 jump between symmetry-equivalent states that no operation exchanges (rotation-only site symmetry of order >= 3)'),
+    'C29c': ('Supercell.maketrans: integer inverse multiplied by the signed determinant',
+             'supercell matrix with negative determinant'),
+    'C32c': ('MonteCarloSampler.start() increments clustercount by fancy indexing',
+             'cluster that wraps onto one site twice; start with that site empty, then update() occupying it'),
+    'C35c': ('MonteCarloSampler_jit.MCmoves gathers all trial sites before the loop',
+             'batch of >= 2 moves with an accepted move whose slot is reused later in the batch'),
+    'C36c': ('PairState.__sub__ fast path for a - a returns the zero state on the final site',
+             'difference of two equal pair states with i != j'),
 }
 
 
